@@ -616,6 +616,99 @@ def bfs(acc, space, layer, init_name, init_model, make_obj, ops, depth, first_op
     acc.sample(layer, {"init": init_name, "first_op": core.jsonable(list(all_ops[first_op])) if first_op is not None else None, "distinct_states_in_shard": len(seen)})
 
 
+def de_bruijn2(n):
+    """A cyclic sequence over range(n) in which every ordered pair (a, b) occurs consecutively exactly once."""
+    seq = []
+    a = [0] * (2 * n)
+
+    def db(t, p):
+        if t > 2:
+            if 2 % p == 0:
+                seq.extend(a[1:p + 1])
+        else:
+            a[t] = a[t - p]
+            db(t + 1, p)
+            for j in range(a[t - p] + 1, n):
+                a[t] = j
+                db(t + 1, t)
+
+    db(1, 1)
+    return seq + seq[:1]
+
+
+def long_walk(acc, space, layer, init_name, init_model, make_obj, ops, prop="C01", check_every=16):
+    """
+    One uninterrupted history on ONE live object in which every ordered pair of operations (including 'serialize')
+    occurs consecutively (an order-2 de Bruijn sequence over the operation alphabet; operations the model does not
+    enable in the state reached are skipped).  The model follows in lock-step; the object is compared with it after
+    every operation and the round-trip oracle runs every `check_every` operations and at the end.  Complements the
+    breadth-first search (all histories up to a small depth, fresh object per state) with a history of about
+    |ops|^2 steps, for state an implementation may accumulate over many operations.
+    """
+    all_ops = list(ops) + [("ser",)]
+    order = de_bruijn2(len(all_ops))
+    model = copy.deepcopy(init_model)
+    obj = make_obj()
+    hist = []
+    applied = 0
+    pairs = set()
+    last = None
+
+    def case():
+        return {"kind": "history", "init": init_name, "ops": [core.jsonable(list(o)) for o in hist]}
+
+    for idx in order:
+        op = all_ops[idx]
+        m2 = copy.deepcopy(model)
+        if not apply_model(space, m2, op):
+            last = None
+            continue
+        hist.append(op)
+        core.guard_cheap(acc, {"kind": "history", "init": init_name, "ops": [core.jsonable(list(o)) for o in hist[-60:]], "note": "tail of a long walk"})
+        try:
+            apply_real(space, obj, op)
+        except core.WatchdogTimeout:
+            raise
+        except Exception as e:
+            acc.violation("an enabled edit operation raised", case(), "applied", f"{type(e).__name__}: {e}", signature=("walk-op", op[0], type(e).__name__))
+            return
+        model = m2
+        applied += 1
+        if last is not None:
+            pairs.add((last, idx))
+        last = idx
+        acc.count("transitions")
+        try:
+            obs = X.observe(obj)
+        except core.WatchdogTimeout:
+            raise
+        except Exception as e:
+            acc.violation("observing the object raised (no chart list?)", case(), "items and charts", f"{type(e).__name__}: {e}", signature=("walk-observe",))
+            return
+        want = X.expected_observation(model)
+        if obs != want:
+            acc.violation("object state differs from the dictionary model after this history", case(), want, obs, signature=("walk-model", op[0]))
+            return
+        if applied % check_every == 0:
+            fails, status = check_roundtrip(model, obj)
+            acc.count("evaluations")
+            if status == "ok":
+                acc.count("roundtrips_checked")
+            for f in fails:
+                acc.violation(f["clause"], case(), f["expected"], f["observed"], signature=("walk", f["clause"]))
+            if fails:
+                return
+    fails, status = check_roundtrip(model, obj)
+    acc.count("evaluations")
+    for f in fails:
+        acc.violation(f["clause"], case(), f["expected"], f["observed"], signature=("walk", f["clause"]))
+    acc.count("states")
+    acc.count("nontrivial")
+    acc.count("walk_steps", applied)
+    acc.outcome("long walk on one live object")
+    acc.layer(layer, init=init_name, operations=len(all_ops), steps=applied, consecutive_pairs_realised=len(pairs), of=len(all_ops) ** 2)
+
+
 def _eq_content(m):
     """What the library's equality is documented to look at: items in order, charts (SM: six fields)."""
     charts = [tuple(c["fields"]) if "fields" in c else tuple(c["items"]) for c in m["charts"]]
